@@ -376,8 +376,10 @@ http_txn_cb(void *arg)
 	}
 
 error:
-	http_txn_finish_aios(txn, rv);
+	// (close first: once the user's aio is finished the connection is
+	// theirs again, and they may be closing it already)
 	nni_http_conn_close(txn->conn);
+	http_txn_finish_aios(txn, rv);
 	nni_mtx_unlock(&http_txn_lk);
 	http_txn_fini(txn);
 }
